@@ -40,7 +40,8 @@ MANIFEST = {
             'exit, timeout, launch error) must produce exactly one unschedule '
             'publication per placed task.'
             '  Second session: a placed task the executor never hands over and never releases is reported here too (placed-task-never-unscheduled); executor endings include death by signal and faults after the spawn.'
-            '  Third session: the application-level workload compares the node map with the resources still held after EVERY release (exact model), shares cores, uses NUMA nodes and hands back the slots of several grants in one call.',
+            '  Third session: the application-level workload compares the node map with the resources still held after EVERY release (exact model), shares cores, uses NUMA nodes and hands back the slots of several grants in one call.'
+            '  Histories include tasks with invalid application-supplied slots: after their failure the node map still equals the initial one minus what is held.',
     'note': 'scheduler and executor are exercised separately here (their '
             'composition is exercised by C08/C05); executor histories use real '
             'threads and processes, reproduced statistically.'}
